@@ -112,13 +112,13 @@ func ChildCases(c *Ctx, f CaseFunc) {
 }
 
 type ShardOpts struct {
-	Mode    string // child mode name (registered in the binary)
-	Bin     string // binary to run ("" = self)
-	Workers int
-	CPUs    int    // taskset for each worker (0 = none); worker w is pinned to CPUs cores starting at w*CPUs
-	NCores  int    // number of cores available for pinning (default 16)
-	Env     []string
-	Timeout time.Duration // wall-clock watchdog per child (inconclusive when it fires without evidence)
+	Mode        string // child mode name (registered in the binary)
+	Bin         string // binary to run ("" = self)
+	Workers     int
+	CPUs        int // taskset for each worker (0 = none); worker w is pinned to CPUs cores starting at w*CPUs
+	NCores      int // number of cores available for pinning (default 16)
+	Env         []string
+	Timeout     time.Duration // wall-clock watchdog per child (inconclusive when it fires without evidence)
 	PerCaseTime time.Duration // added to Timeout for every case still to run in the child
 	// Died is called when a child died while running a case. It decides whether that is a
 	// violation. If nil, every death is reported as a violation "process-died:<kind>".
